@@ -126,7 +126,7 @@ type term struct {
 }
 
 func pureT(code string) term { return term{"", code} }
-func (a term) isPure() bool { return a.pre == "" }
+func (a term) isPure() bool  { return a.pre == "" }
 
 type flow struct {
 	ret  func(v string) string // code for `return` of the packaged function result v
@@ -158,7 +158,8 @@ type fctx struct {
 	tmp      int
 	loopN    int
 	loops    map[*ast.ForStmt]*loopInfo
-	emptyVar types.Object // variadic parameter assumed empty (-assume-empty-variadic)
+	joins    map[*ast.IfStmt][]string // variables joined after an if without escapes (computed once per statement)
+	emptyVar types.Object             // variadic parameter assumed empty (-assume-empty-variadic)
 	deadVars map[types.Object]bool
 }
 
@@ -176,7 +177,7 @@ func init() {
 
 func (c *fctx) fresh(base string) string {
 	c.tmp++
-	return fmt.Sprintf("%s'%d", base, c.tmp)
+	return fmt.Sprintf("%s''%d", base, c.tmp) // two quotes: cannot collide with a Go name or a renamed Go variable (x'1)
 }
 
 // declare gives a Go variable its Gallina name: the Go name, made unique within the function
@@ -522,6 +523,11 @@ func (c *fctx) assign(n ast.Node, lhs ast.Expr, op token.Token, isDef bool, rhs 
 				t.fail(lhs, "assignment to a string element")
 			}
 		}
+		if tv := t.info.Types[ix.X]; tv.Type != nil {
+			if _, ok := tv.Type.Underlying().(*types.Slice); ok {
+				t.fail(lhs, "element assignment through a slice (aliasing between slices is not modelled)")
+			}
+		}
 		ik := c.typeKind(ix.Index)
 		get, set := "aget", "aset"
 		if ik == kZ {
@@ -535,9 +541,13 @@ func (c *fctx) assign(n ast.Node, lhs ast.Expr, op token.Token, isDef bool, rhs 
 				old := c.fresh("o")
 				r = c.binop(n, op, ek, pureT(old), r)
 				return old + " <- " + get + " " + base + " " + paren(i) + " ;;\n" +
-					c.bind(r, "v", func(v string) string { return base + " <- " + set + " " + base + " " + paren(i) + " " + paren(v) + " ;;\n" + k() })
+					c.bind(r, "v", func(v string) string {
+						return base + " <- " + set + " " + base + " " + paren(i) + " " + paren(v) + " ;;\n" + k()
+					})
 			}
-			return c.bind(r, "v", func(v string) string { return base + " <- " + set + " " + base + " " + paren(i) + " " + paren(v) + " ;;\n" + k() })
+			return c.bind(r, "v", func(v string) string {
+				return base + " <- " + set + " " + base + " " + paren(i) + " " + paren(v) + " ;;\n" + k()
+			})
 		})
 	}
 	var name string
@@ -656,16 +666,24 @@ func (c *fctx) stmt(s ast.Stmt, fl flow, k func() string) string {
 			if !escapes(s) {
 				// no return/break/continue inside: both branches fall through to what follows.  Join on the
 				// tuple of the variables assigned in the branches instead of copying the continuation.
-				known := map[string]bool{}
-				for _, n := range c.order {
-					known[n] = true
-				}
-				_, asg := c.scan(known, s.Body, s.Else)
-				var vars []string
-				for _, n := range c.order {
-					if asg[n] {
-						vars = append(vars, n)
+				vars, done := c.joins[s]
+				if !done {
+					known := map[string]bool{}
+					for _, n := range c.order {
+						known[n] = true
 					}
+					var nodes []ast.Node
+					nodes = append(nodes, s.Body)
+					if s.Else != nil {
+						nodes = append(nodes, s.Else)
+					}
+					_, asg := c.scan(known, nodes...)
+					for _, n := range c.order {
+						if asg[n] {
+							vars = append(vars, n)
+						}
+					}
+					c.joins[s] = vars
 				}
 				gen := func(end string) (string, string) {
 					kk := func() string { return end }
@@ -897,6 +915,18 @@ func (c *fctx) loop(s *ast.ForStmt, fl flow, k func() string) string {
 		if !li.hasRet {
 			retT = "Empty_set"
 		}
+		if li.hasRet && c.recvPtr {
+			// a return inside the loop re-assembles the receiver: every field is needed
+			for _, f := range c.recvS.fields {
+				ref[c.fieldVar(f.name)] = true
+			}
+		}
+		li.params = nil
+		for _, n := range c.order {
+			if ref[n] {
+				li.params = append(li.params, n)
+			}
+		}
 		// the loop function
 		var ps []string
 		for _, p := range li.params {
@@ -1097,7 +1127,7 @@ func (t *tr) structOf(n ast.Node, T types.Type) *structInfo {
 
 func (t *tr) function(fd *ast.FuncDecl, gname string) {
 	c := &fctx{t: t, name: gname, decl: fd, names: map[types.Object]string{}, used: map[string]bool{}, kinds: map[string]kind{},
-		loops: map[*ast.ForStmt]*loopInfo{}, deadVars: map[types.Object]bool{}}
+		loops: map[*ast.ForStmt]*loopInfo{}, joins: map[*ast.IfStmt][]string{}, deadVars: map[types.Object]bool{}}
 	if fd.Body == nil {
 		t.fail(fd, "function without a body")
 	}
@@ -1182,7 +1212,17 @@ func (t *tr) function(fd *ast.FuncDecl, gname string) {
 		if as, ok := n.(*ast.AssignStmt); ok && as.Tok == token.DEFINE && len(as.Lhs) == 1 && len(as.Rhs) == 1 {
 			if cl, ok := as.Rhs[0].(*ast.CompositeLit); ok {
 				if _, isStruct := t.info.Types[cl].Type.Underlying().(*types.Struct); isStruct && c.emptyVar != nil {
-					if id, ok := as.Lhs[0].(*ast.Ident); ok && t.info.Defs[id] != nil {
+					simple := true // element values must be plain identifiers or constants (cannot panic)
+					for _, el := range cl.Elts {
+						v := el
+						if kv, ok := el.(*ast.KeyValueExpr); ok {
+							v = kv.Value
+						}
+						if _, isId := v.(*ast.Ident); !isId && t.info.Types[v].Value == nil {
+							simple = false
+						}
+					}
+					if id, ok := as.Lhs[0].(*ast.Ident); ok && t.info.Defs[id] != nil && simple {
 						c.deadVars[t.info.Defs[id]] = true
 					}
 				}
@@ -1305,6 +1345,11 @@ func translate(path string, src []byte, want []string, fuel map[string]string, e
 			return "", fmt.Errorf("untranslatable construct at %s: function %s not found", filepath.Base(path), w)
 		}
 		g := strings.ReplaceAll(w, ".", "_")
+		for _, part := range strings.Split(w, ".") {
+			if reserved[part] {
+				return "", fmt.Errorf("untranslatable construct at %s: the name %s clashes with a name the generated code uses", filepath.Base(path), part)
+			}
+		}
 		t.topNames[g] = true
 		targets = append(targets, target{found, g})
 	}
